@@ -29,7 +29,8 @@ HPDES == R(3, 8)          \* as a fraction of c_tc2 (a lattice altitude: AT the 
 CFCR == R(9, 10)
 V0 == I(10)
 
-Derate(sel) == CASE sel = "none" -> I(1) [] sel = "partial" -> R(9, 10) [] sel = "clipped" -> R(3, 5) [] sel = "cold" -> I(1)
+\* "advanced": a NEGATIVE C_Tc4 (legal in BADA data: the deration starts 5 K below ISA) at ISA temperature: 1 - 0.01 * 5
+Derate(sel) == CASE sel = "none" -> I(1) [] sel = "partial" -> R(9, 10) [] sel = "clipped" -> R(3, 5) [] sel = "cold" -> I(1) [] sel = "advanced" -> R(19, 20)
 
 Drag(c) == Add(Mul(Sq(c.v), CD0), Div(Mul(CD2, Sq(c.W)), Sq(c.v)))
 ThrustTE(c) == Add(Drag(c), Add(Div(Mul(c.W, c.rocd), c.v), Mul(c.W, c.a)))
@@ -63,7 +64,7 @@ Sgr(c) == Div(c.v, FuelFlow(c))
 PointCases == [eng : Engines, W : {I(600), I(1200)}, v : {I(10), I(20)},
                rocd : {I(-15), I(-5), I(0), I(5), I(40)}, a : {I(0), R(1, 10), R(-1, 5)},     \* (a strong deceleration makes the
                \* total-energy thrust negative in level flight and in climb as well)
-               hf : {I(0), R(1, 4), HPDES, R(1, 2)}, der : {"none", "partial", "clipped", "cold"},
+               hf : {I(0), R(1, 4), HPDES, R(1, 2)}, der : {"none", "partial", "clipped", "cold", "advanced"},
                cruise : BOOLEAN, ctcr : CTCRs]
 
 VARIABLES pcase, out, st
